@@ -121,10 +121,7 @@ class _TorchBackend:
                     self.b = tnn.Parameter(torch.full([3], param_value(leaf_id, 1), dtype=torch.float32))
                 self.leaf_id = leaf_id
 
-            def forward(self, op, x=None):
-                # torch.nn.Sequential passes exactly one argument
-                if x is None:
-                    x = op
+            def forward(self, x):
                 x = x + self.w
                 if hasattr(self, "b"):
                     x = x + self.b
@@ -135,9 +132,7 @@ class _TorchBackend:
                 super().__init__()
                 self.attr_names = []
 
-            def forward(self, op, x=None):
-                if x is None:
-                    x = op
+            def forward(self, x):
                 for a in self.attr_names:
                     x = backend.call_child(None, getattr(self, a), x)
                 return x
